@@ -960,6 +960,11 @@ func loadChunk(ctx context.Context, db kvStore, r io.Reader) (*time.Time, uint64
 		numKeys++
 	}
 
+	if err := scanner.Err(); err != nil {
+		// a chunk that could not be read to its end must not pass for the whole chunk
+		return nil, numKeys, err
+	}
+
 	if indexTime == nil {
 		return nil, numKeys, errors.New("invalid index file: expect a RFC3339Nano time has header")
 	}
